@@ -3,6 +3,7 @@ package main
 import (
 	"fmt"
 	"go/token"
+	"sort"
 	"strings"
 
 	"golang.org/x/tools/go/ssa"
@@ -613,6 +614,107 @@ func c03Vars(c *Ctx) {
 			}
 		}
 	})
+	// every successful assignment stores: no success return of the identifier / index arms is reachable from the
+	// function entry without passing SetVarb / changeListOrMapValue
+	for _, pp := range []string{pRT, pRT2} {
+		as := t.Func(pp, "RunAssignmentExpr")
+		if as == nil {
+			r.Undecided("VARS", t.SSA[pp].Pkg.Name()+".RunAssignmentExpr", "", "unresolved anchor")
+			continue
+		}
+		tag := t.SSA[pp].Pkg.Name()
+		_, s2k := kindTable(t)
+		isStore := func(in ssa.Instruction) bool {
+			call, ok := in.(*ssa.Call)
+			if !ok || call.Call.StaticCallee() == nil {
+				return false
+			}
+			n := call.Call.StaticCallee().Name()
+			return n == "SetVarb" || n == "changeListOrMapValue"
+		}
+		nRet, bad := 0, 0
+		allInstrs(as, func(in ssa.Instruction) {
+			ret, ok := in.(*ssa.Return)
+			if !ok || retError(ret) == "nonnil" {
+				return
+			}
+			// v1: the arm is known from the NodeType fact; v2: the stores sit in a loop over the targets and the
+			// success return follows the loop, so the rule is applied to the loop body's arms through the latch
+			arm := ""
+			for _, ec := range controlling(ret.Block()) {
+				if bo, ok := ec.Cond.(*ssa.BinOp); ok && bo.Op == token.EQL && ec.Pol && strings.HasSuffix(path(bo.X), ".NodeType") {
+					if k, isC := constInt(bo.Y); isC && (k == s2k["Identifier"] || k == s2k["IndexExpr"]) {
+						arm = path(bo.X)
+					}
+				}
+			}
+			if arm == "" {
+				return
+			}
+			if len(ret.Results) > 0 && isNilConst(ret.Results[0]) {
+				return // `x += 1` with x neither variable nor point key: nothing to assign to (reads as nil), not a store path
+			}
+			nRet++
+			if reachAvoid(as.Blocks[0].Instrs[0], ret, isStore) {
+				bad++
+				r.Ob("VARS", fmt.Sprintf("%s.RunAssignmentExpr success return #%d stores the assigned value", tag, retOrdinal(as, ret)), t.Pos(ret.Pos()), false,
+					"this return of an identifier/index target arm is reachable without SetVarb / changeListOrMapValue: the assignment reports success but changes nothing")
+			}
+		})
+		if pp == pRT {
+			r.Ob("VARS", tag+".RunAssignmentExpr stores on every successful target arm", t.Pos(as.Pos()), bad == 0 && nRet >= 4, fmt.Sprintf("%d success returns under an Identifier/IndexExpr target test, %d reachable without a store", nRet, bad))
+		} else {
+			// v2: each arm of the per-target switch inside the loop must pass a store before the loop latch
+			okArms, nArms := true, 0
+			for _, l := range naturalLoops(as) {
+				for b := range l.Blocks {
+					for _, ec := range controlling(b) {
+						bo, ok := ec.Cond.(*ssa.BinOp)
+						if !ok || bo.Op != token.EQL || !ec.Pol || !strings.HasSuffix(path(bo.X), ".NodeType") || ec.If.Succs[0] != b {
+							continue
+						}
+						k, isC := constInt(bo.Y)
+						if !isC || (k != s2k["Identifier"] && k != s2k["IndexExpr"]) {
+							continue
+						}
+						nArms++
+						// from the arm's first instruction, the loop header must not be reachable without a store
+						hdr := l.Header.Instrs[0]
+						if reachAvoid(b.Instrs[0], hdr, isStore) && !isStore(b.Instrs[0]) {
+							okArms = false
+						}
+					}
+				}
+			}
+			r.Ob("VARS", tag+".RunAssignmentExpr stores on every successful target arm", t.Pos(as.Pos()), okArms && nArms >= 4, fmt.Sprintf("%d Identifier/IndexExpr target arms inside the per-target loop, each passing SetVarb / changeListOrMapValue before the next target", nArms))
+		}
+	}
+	// variables are written through Stack.Set only: a *Varb handed out by a lookup may be a throw-away copy of a
+	// point key (Task.GetKey builds one when the name has no variable), so storing into it loses the assignment
+	nVW := 0
+	var foreign []string
+	for _, pp := range []string{pRT, pRT2, pFuncs, pEngine} {
+		for _, f := range t.PkgFuncs(pp) {
+			allInstrs(f, func(in ssa.Instruction) {
+				st, ok := in.(*ssa.Store)
+				if !ok {
+					return
+				}
+				fa, ok := st.Addr.(*ssa.FieldAddr)
+				if !ok || namedOf(fa.X.Type()) != "runtime.Varb" {
+					return
+				}
+				nVW++
+				if _, isAlloc := fa.X.(*ssa.Alloc); isAlloc || f == set {
+					return
+				}
+				foreign = append(foreign, fmt.Sprintf("%s stores %s.%s at %s", relName(f), path(fa.X), fieldName(fa), t.Pos(st.Pos())))
+			})
+		}
+	}
+	sort.Strings(foreign)
+	r.Ob("VARS", "variables are written through Stack.Set only", t.Pos(set.Pos()), len(foreign) == 0 && nVW >= 4,
+		fmt.Sprintf("%d stores into Varb fields, all in Stack.Set or into a freshly built Varb; others: %v — an assignment (plain or compound) must update the nearest variable or create one in the current block, which only Set does", nVW, foreign))
 	r.Ob("VARS", "Stack.Set creates a new variable in the current (receiver's) frame", t.Pos(set.Pos()), insRecv, "stack.Data[key] = … — inserting into the frame the search ended in would create the variable in the outermost scope")
 	r.Ob("VARS", "Stack.Set updates the nearest enclosing variable in place", t.Pos(set.Pos()), upd, "the first frame on the Before chain that has the key is updated")
 	// both walk the Before chain
